@@ -1859,7 +1859,7 @@ att_mnemo_table = {
         'add', 'adc', 'sub', 'mul', 'div', 'imul', 'idiv', 'inc', 'dec', 'xadd',
         'sal', 'sar', 'shl', 'shr', 'rol', 'ror', 'sbb', 'shld', 'shrd', 'bsf', 'bsr',
         'bt', 'bts', 'btr', 'btc', 'lgdt',
-        'cvtsi2sd', 'cvtsi2ss', 'fisttp',
+        'cvtsi2sd', 'cvtsi2ss',
         'cmpxchg', 'movnti', 'rdrand',
         ],
     'suffix_one_iflt': [ {
